@@ -548,8 +548,12 @@ def run(chk, replay=None):
                 if ac_dropped:
                     state['ac_mesh_cex'] = True
                 # which patch switches the code matched tells which defects are still present
-                fl = {'e': 0, 'i': 0, 'j': 0} if matched in (None, 'asis') else {'e': 1, 'i': 1, 'j': 1} if matched == 'patched' \
-                    else {matched[k]: int(matched[k + 1]) for k in (0, 2, 4)}
+                fl = {'e': 0, 'i': 0, 'j': 0}
+                for variant in MESH_VARIANTS:
+                    if replies[variant][m] is not None and same_eq(replies[variant][m], got):
+                        vf = {'e': 0, 'i': 0, 'j': 0} if variant == 'asis' else {'e': 1, 'i': 1, 'j': 1} if variant == 'patched' \
+                            else {variant[k]: int(variant[k + 1]) for k in (0, 2, 4)}
+                        fl = {k: max(fl[k], vf[k]) for k in fl}
                 defect = 'ac-kind-terms-dropped' if ac_dropped else \
                     'parallel-components' if (par_on_loop and not fl['e']) else \
                     'initial-condition' if (ic_on_loop and not fl['i']) else \
@@ -874,7 +878,10 @@ def run(chk, replay=None):
                 Dtrue = (b[0] / a[0]) if len(b) == len(a) else sym.Integer(0)
                 dden = sym.diff(den, x)
                 res = [sym.simplify(sym.expand(num - Dtrue * den).subs(x, p_) / dden.subs(x, p_)) for p_ in poles]
-                r = drv.ask1('ss.dcf || %s || %s || %s || %s' % (bq, aq, ' '.join(gq(p_) for p_ in poles), ' '.join(gq(v) for v in res)))
+                # the code is handed H.b, H.a (normalised so that a is monic)
+                hb = ' '.join(gq(v.sympy) for v in H.b)
+                ha = ' '.join(gq(v.sympy) for v in H.a)
+                r = drv.ask1('ss.dcf || %s || %s || %s || %s' % (hb, ha, ' '.join(gq(p_) for p_ in poles), ' '.join(gq(v) for v in res)))
                 mine = '%d ; %s ; %s ; %s ; %s' % (n, ' '.join(A), ' '.join(B), ' '.join(C), D)
                 chk.coverage['correspondence']['compared'] += 1
                 if r != mine and sym.degree(sym.gcd(sym.Poly(num, x), sym.Poly(den, x)), x) > 0:
